@@ -291,7 +291,10 @@ def obligations(tier, seed):
     }
     for kind, pool in pools.items():
         full = not quick and len(pool) <= 40
-        for (x, y) in pairs(pool, not full, seed):
+        prs = pairs(pool, not full, seed)
+        if kind in ('prefix6', 'prefix4', 'lu4', 'vpnv4') and (pool[0], pool[0]) not in prs:
+            prs.append((pool[0], pool[0]))        # the shortest element twice (two default routes)
+        for (x, y) in prs:
             prm = {'kind': kind, 'a': x, 'b': y}
             if kind == 'aspath':
                 for as4 in (False, True):
